@@ -33,6 +33,8 @@ mod c04;
 #[cfg(kani)]
 mod c05;
 #[cfg(kani)]
+mod c13;
+#[cfg(kani)]
 mod c19;
 #[cfg(kani)]
 mod cost_table;
